@@ -63,6 +63,14 @@ def gen_ti_case(rng, tier):
             ops.append({"op": "ti_checksum_add", "path": rel2, "ctype": pick(rng, ALGOS), "root_dir": "/sim/tree"})
     path = "/sim/d/.treeinfo"
     ops.append({"op": "dump", "path": path})
+    if rng.random() < 0.15:
+        # the node restarts on a pre-productmd copy of the file (compatibility sections only): every checksum path must
+        # still carry its own algorithm and value
+        ops.append({"op": "ti_checksum_add", "path": pick(rng, ["x86_64/os/images/boot.iso", "tree/os/x", "a/os/b/os/c"]), "ctype": "sha256", "value": hexstr(rng, 64)})
+        ops.append({"op": "dump", "path": path})
+        ops.append({"op": "ti_downgrade", "path": path, "version": "0.0", "tag": "C16"})
+        ops.append({"op": "restart", "path": path, "via": pick(rng, ["path", "handle", "loads"]), "offset": rng.randint(0, 300)})
+        return {"machine": "M-TI", "cfg": {"simset": "insertion"}, "ops": ops}
     if rng.random() < 0.6:
         modes = ["keep", "bare", "bare32", "bare40", "bare64", "bare31", "bare33", "bare48", "bare128", "bare0", "bare65"]
         ops.append({"op": "ti_bare_digests", "path": path, "plan": [pick(rng, modes) for _ in range(rng.randint(1, 5))]})
